@@ -302,7 +302,7 @@ int main(int argc, char **argv) {
     g_R = mc_thorough ? 8 : 5;
     snprintf(mc_bounds, sizeof mc_bounds,
              "all ordered pairs of FULL(0..%d) (quick: plus every origin of the 12 pentagon base cells at resolution 3 x all cells); balls of radius %d around FINE level %d origins at resolutions %d..15 with the (2R+1)^2 IJ square; "
-             "extreme IJ (int32 limits and k*2^31/7 wrap points) x modes on IDX base cells; IJ squares of side 17 from every origin of the complete resolutions; "
+             "extreme IJ (int32 limits and k*2^31/7 wrap points) x modes on IDX base cells; IJ squares of side 17 from every origin of the complete resolutions and the next one; "
              "mixed-resolution pairs FULL(a) x FULL(b), a != b <= 2, both orders",
              fullmax, g_R, mc_thorough ? 1 : 2, fullmax + 1);
     for (g_res = 0; g_res <= fullmax; g_res++) {
@@ -329,7 +329,7 @@ int main(int argc, char **argv) {
     g_dom.n = 0;
     dom_idx_bases(1, &g_dom);
     mc_phase("extreme IJ and modes", ph_ijx, NULL);
-    for (g_res = 0; g_res <= fullmax; g_res++) {
+    for (g_res = 0; g_res <= fullmax + 1; g_res++) {
         char nm[64];
         snprintf(nm, sizeof nm, "IJ squares (ij->cell->ij) from every origin of FULL(%d)", g_res);
         mc_phase(nm, ph_sq, NULL);
